@@ -84,6 +84,18 @@ func validate(
 			len(remove),
 		)
 	}
+	// The empty name is the name of the content of a vehicle that has nothing
+	// on board, it cannot be the name of an item.
+	for _, items := range []map[ModelStop]MixItem{insert, remove} {
+		for stop, item := range items {
+			if item.Name == "" {
+				return fmt.Errorf(
+					"no-mix constraint, stop %v has an item without a name",
+					stop.ID(),
+				)
+			}
+		}
+	}
 	deltaPerPlanUnit := make(map[ModelPlanStopsUnit]int)
 	namePerPlanUnit := make(map[ModelPlanStopsUnit]string)
 	stops := make(map[ModelStop]string, len(insert)+len(remove))
